@@ -28,6 +28,7 @@ class InferGen:
         self.kinds = {}          # local -> kind: int / float / str / bool / mixed
         self.feat = set()
         self.nloop = 0
+        self.in_loop = False     # inside a loop only linearly growing updates are generated (resource bound)
 
     def new_local(self, kind):
         v = 'v%d' % len(self.kinds)
@@ -62,7 +63,7 @@ class InferGen:
             if r < 0.3:
                 return rng.choice(STR_LITS)
             if r < 0.6 and strs:
-                return '%s + %s' % (rng.choice(strs), rng.choice(strs + STR_LITS + ['s']))
+                return '%s + %s' % (rng.choice(strs), rng.choice((strs if not self.in_loop else []) + STR_LITS + ['s']))
             if r < 0.8 and strs:
                 return '%s[%s:]' % (rng.choice(strs), rng.choice(['1', '-2', 'n']))
             return 's'
@@ -80,8 +81,9 @@ class InferGen:
             return '%s %s %s' % (rng.choice(ints), rng.choice(BITS), rng.choice(ints + SMALL_INTS))
         if r < 0.47:
             self.feat.add('shift')
-            return '%s %s (%s %% 70)' % (self.num(), rng.choice(['<<', '>>']), rng.choice(self.locals_of('int') + ['n', '3', '40', '64']))
-        if r < 0.52:
+            return '%s %s (%s %% %d)' % (self.num(), rng.choice(['<<', '>>']), rng.choice(self.locals_of('int') + ['n', '3', '40', '64']),
+                                        8 if self.in_loop else 70)
+        if r < 0.52 and not self.in_loop:
             self.feat.add('power')
             return '%s ** %s' % (self.num(), rng.choice(['2', '3', '(n % 4)']))
         if r < 0.57:
@@ -89,6 +91,9 @@ class InferGen:
             return rng.choice(['-%s', '~%s', 'abs(%s)', '+%s']) % rng.choice(self.locals_of('int', 'float', 'bool', 'mixed') + ['a', 'n'])
         op = rng.choice(ARITH)
         self.feat.add('arith' + op)
+        if op == '*' and self.in_loop:
+            # inside loops only multiplication by a small literal (linear growth of the number of digits)
+            return '%s * %s' % (self.num(), rng.choice(['2', '3', '10', '-1']))
         return '%s %s %s' % (self.num(), op, self.num())
 
     def assign(self, ind):
@@ -100,6 +105,8 @@ class InferGen:
         if rng.random() < 0.25 and k in ('int', 'float'):
             op = rng.choice(ARITH[:5] + BITS if k == 'int' else ARITH)
             self.feat.add('inplace')
+            if op == '*' and self.in_loop:
+                return [ind + '%s *= %s' % (v, rng.choice(['2', '3', '10', '-1']))]
             return [ind + '%s %s= %s' % (v, op, self.num())]
         return [ind + '%s = %s' % (v, self.expr(k))]
 
@@ -107,7 +114,7 @@ class InferGen:
         rng = self.rng
         i2 = ind + '    '
         r = rng.random()
-        if depth >= 2 or r < 0.45:
+        if depth >= 2 or r < 0.45 or (self.in_loop and not (0.74 <= r < 0.9)):
             return self.assign(ind)
         if r < 0.62:
             self.feat.add('range-loop')
@@ -118,8 +125,10 @@ class InferGen:
                 self.feat.add('range-target-reused')
             rg = rng.choice(['range(n)', 'range(n %% 7)', 'range(2, n)', 'range(n, 0, -1)', 'range(%s, %s)' % (rng.choice(SMALL_INTS), 'n')])
             body = []
+            self.in_loop = True
             for _ in range(rng.randint(1, 3)):
                 body += self.stmt(i2, depth + 1)
+            self.in_loop = False
             if rng.random() < 0.4:
                 body.append(i2 + '%s = %s + %s' % (rng.choice(self.locals_of('int', 'float', 'mixed') or ['n']), rng.choice(self.locals_of('int', 'float', 'mixed') or ['n']), tgt))
             return [ind + 'for %s in %s:' % (tgt, rg)] + body
@@ -136,7 +145,8 @@ class InferGen:
                 if a < 0.3 and ints:
                     acts.append(i2 + '%s = %s + ord(%s)' % (rng.choice(ints), rng.choice(ints), c))
                 elif a < 0.5 and strs:
-                    acts.append(i2 + '%s = %s + %s' % (rng.choice(strs), rng.choice([c, c + '.upper()', c + ' * 2']), rng.choice(strs)))
+                    t_ = rng.choice(strs)
+                    acts.append(i2 + '%s = %s + %s' % (t_, rng.choice([c, c + '.upper()', c + ' * 2']), t_))
                 elif a < 0.7 and ints:
                     acts.append(i2 + "if %s %s %s:" % (c, rng.choice(['==', '<', '>=', 'in']), rng.choice(["'a'", "'\\xe9'", "'z'"]) if True else ''))
                     acts.append(i2 + '    %s = %s + 1' % ((rng.choice(ints),) * 2))
@@ -159,7 +169,7 @@ class InferGen:
         v = rng.choice(self.locals_of('int', 'mixed', 'float') or ['a'])
         if v == 'a':
             return self.assign(ind)
-        g = rng.choice(['%s = %s * 3 + %s' % (v, v, c), '%s = %s * %s' % (v, v, rng.choice(['2', '10', 'a'])),
+        g = rng.choice(['%s = %s * 3 + %s' % (v, v, c), '%s = %s * %s' % (v, v, rng.choice(['2', '10', '1000000007'])),
                         '%s = %s + %s * %s' % (v, v, v, c), '%s = %s << 7' % (v, v) if self.kinds[v] != 'float' else '%s = %s * 1e30' % (v, v)])
         return [ind + '%s = 0' % c, ind + 'while %s < n:' % c, i2 + '%s += 1' % c, i2 + g]
 
@@ -203,7 +213,7 @@ def gen_function(rng, name):
 A_VALUES = ['0', '1', '-1', '3', '-7', '255', '2**31 - 1', '2**31', '-2**31 - 1', '2**32 + 5', '2**62', '2**63 - 1', '2**63',
             '-2**63', '-2**63 - 1', '2**64 + 3', '10**30', '2.5', '-0.5', '1e300', 'True']
 B_VALUES = ['0', '1', '2', '-3', '7', '2**31', '2**63 - 1', '-2**63', '0.5', '-2.0', '3']
-N_VALUES = ['0', '1', '2', '3', '5', '9', '17', '40']
+N_VALUES = ['0', '1', '2', '3', '4', '5', '7', '9']
 S_VALUES = ["''", "'a'", "'abc'", "'a\\xe9z'", "'\\u20acuro'", "'x\\U0001f600'"]
 
 
